@@ -29,6 +29,20 @@ class Gen:
         for k, n in mod.order:
             if k == 'f':
                 s.faddr[n] = j << 32; s.fpy[n] = 'F%d' % (j - FUNC_BASE); j += 1
+        # aliases (e.g. C1 -> C2 constructors)
+        def alias_target(v):
+            while v and v[0] == 'ccast': v = v[3]
+            return v[1] if v and v[0] == 'global' else None
+        for n, gi in mod.globals.items():
+            if gi.get('alias') is not None:
+                t = alias_target(gi['alias'])
+                seen = set()
+                while t in mod.globals and mod.globals[t].get('alias') is not None and t not in seen:
+                    seen.add(t); t = alias_target(mod.globals[t]['alias'])
+                if t in s.faddr:
+                    s.faddr[n] = s.faddr[t]; s.fpy[n] = s.fpy[t]; del s.gaddr[n]
+                    s.alias_fn = getattr(s, 'alias_fn', {}); s.alias_fn[n] = t
+                elif t in s.gaddr: s.gaddr[n] = s.gaddr[t]
         s.layout_cache = {}
         s.tdesc_cache = {}
         s.consts = []   # module-level constants (switch tables, type descriptors)
@@ -149,7 +163,15 @@ class Gen:
         if k == 'cbin':
             _, op, aty, a, b = v
             x = s.const_eval(aty, a); y = s.const_eval(aty, b); w = s.res(aty).n if s.res(aty).k == 'int' else 64; m = (1 << w) - 1
-            return {'add': (x + y) & m, 'sub': (x - y) & m, 'mul': (x * y) & m, 'and': x & y, 'or': x | y, 'xor': x ^ y, 'shl': (x << y) & m, 'lshr': x >> y}.get(op)
+            if op == 'add': return (x + y) & m
+            if op == 'sub': return (x - y) & m
+            if op == 'mul': return (x * y) & m
+            if op == 'and': return x & y
+            if op == 'or': return x | y
+            if op == 'xor': return x ^ y
+            if op == 'shl': return (x << y) & m if y < w else 0
+            if op == 'lshr': return x >> y if y < w else 0
+            raise ValueError('const binop ' + op)
         if k == 'cicmp':
             _, pred, aty, a, b = v
             x = s.const_eval(aty, a); y = s.const_eval(aty, b)
@@ -651,6 +673,7 @@ class Gen:
             elif isinstance(v, list):
                 for x in v: refs(x, acc)
         def note(g):
+            g = getattr(s, 'alias_fn', {}).get(g, g)
             if g in mod.funcs: work.append(('f', g))
             elif g in mod.globals: work.append(('g', g))
         while work:
